@@ -997,6 +997,8 @@ type LoopSpec struct {
 	PostFn func(c *Ctx, before, after *State) string
 	// BodyObl: extra per-iteration obligations (state at the start of the body, state at the back edge, range index)
 	BodyObl func(c *Ctx, before, after *State, idx string)
+	// ContinueIf: contract clauses that must hold at every back edge of the loop
+	ContinueIf []*Clause
 	// EntryObl: extra obligations on the state in which the loop is entered (before any havoc)
 	EntryObl func(c *Ctx, pre *State)
 }
@@ -1096,6 +1098,9 @@ func (c *Ctx) execFor(x *ast.ForStmt, st *State) Flow {
 		c.addObl(Obl{Name: key + "/loop.preserve", Kind: "loop.preserve", Guard: back.guard, Goal: c.evalInv(ls, back, "", x.Pos()), Pos: c.pos(x.Pos()), Text: "loop invariant preserved"})
 		if ls.BodyObl != nil {
 			ls.BodyObl(c, before, back, "")
+		}
+		for _, cl := range ls.ContinueIf {
+			c.addObl(Obl{Name: fmt.Sprintf("%s/continues-only-if[%s]", key, cl.Label), Kind: "loop.continue", Guard: back.guard, Goal: c.specBool(cl, &SpecEnv{c: c, st: back, entry: c.entry, at: x.End()}), Pos: c.pos(x.Pos()), Text: "the loop goes round again only if " + cl.Text})
 		}
 		if ls.DecFn != nil {
 			c.addObl(Obl{Name: key + "/loop.decreases", Kind: "loop.decreases", Guard: back.guard, Goal: ls.DecFn(c, before, back), Pos: c.pos(x.Pos()), Text: "loop variant decreases"})
@@ -1286,6 +1291,9 @@ func (c *Ctx) execRange(x *ast.RangeStmt, st *State) Flow {
 		c.addObl(Obl{Name: key + "/loop.preserve", Kind: "loop.preserve", Guard: back.guard, Goal: c.evalInv(ls, back, c.addIdx(j, c.ilit(1)), x.Pos()), Pos: c.pos(x.Pos()), Text: "loop invariant preserved"})
 		if ls.BodyObl != nil {
 			ls.BodyObl(c, rbefore, back, j)
+		}
+		for _, cl := range ls.ContinueIf {
+			c.addObl(Obl{Name: fmt.Sprintf("%s/continues-only-if[%s]", key, cl.Label), Kind: "loop.continue", Guard: back.guard, Goal: c.specBool(cl, &SpecEnv{c: c, st: back, entry: c.entry, at: x.End(), idx: j}), Pos: c.pos(x.Pos()), Text: "the loop goes round again only if " + cl.Text})
 		}
 	}
 	e2 := c.havoc(st, m)
